@@ -213,6 +213,10 @@ func runC05(c *ctx) {
 			if i%2 == 0 {
 				runRDD(c, cfg, fs, chunkSpecs[(i+1)%len(chunkSpecs)], "eof", bufSpecs[(i+2)%len(bufSpecs)], []string{"d", "dr", "p"}[i%3])
 			}
+			// the ReadData family (incl. the helpers that skip messages of the other kind)
+			if cfg.state&4 == 0 && (c.thor || i%2 == 1) {
+				runRX(c, "RX", side, []string{"data", "text", "binary"}[(i/2)%3], fs, "-", chunkSpecs[(i+2)%len(chunkSpecs)], "eof")
+			}
 		}
 	})
 	// MaxFrameSize around the announced length
